@@ -569,6 +569,10 @@ fn run_case_caught<P: Part>(part: &P, case: &P::Case, obs: &mut Obs) -> Result<(
             // a panic that unwound into the harness itself: attribute it
             let recs = crate::panics::take_thread();
             let (key, msg) = match recs.last() {
+                Some(p) if !p.in_repo() => {
+                    // a bug in the harness itself is never a property violation
+                    return Err(Fail::Inconclusive(format!("harness panic: {}", p.describe())));
+                }
                 Some(p) => (p.key(), p.describe()),
                 None => ("panic:unknown".to_string(), panic_message(&e)),
             };
